@@ -34,9 +34,9 @@ PROFILES = {
     'mirror':    dict(BASE, verboseMethods=1, logAnswers=1, structDump=1, pGuardCancel=100, pGuardIssue=80, wReset=2, wExitEnter=2, wQuery=2),
     'mirror-idle': dict(BASE, verboseMethods=1, logAnswers=1, structDump=1, pIssue=2, maxBatch=1, pGuardCancel=0, pGuardIssue=0, wQuery=0, wReact=0, wImmediate=1, wReset=0, wExitEnter=0),
     'mirror-plans': dict(BASE, verboseMethods=1, logAnswers=1, structDump=1, planDump=1, wPlanEdit=3, wExtStatus=2, pSucceed=150, pFail=40, pHeadStatus=50, pGuardCancel=40, pGuardIssue=20, pIssue=15, maxBatch=1),
-    'burst':     dict(BASE, maxBatch=14, pIssue=300, pGuardIssue=500, pGuardCancel=120, wSaveLoad=10, wPlanEdit=3, wExtStatus=1, pSucceed=150, pFail=30, pPlanInCb=300, planDump=0, wReset=1, wExitEnter=1, wRecreate=10),
+    'burst':     dict(BASE, wOverlong=30, maxBatch=14, pIssue=300, pGuardIssue=500, pGuardCancel=120, wSaveLoad=10, wPlanEdit=3, wExtStatus=1, pSucceed=150, pFail=30, pPlanInCb=300, planDump=0, wReset=1, wExitEnter=1, wRecreate=10),
     'alloc':     dict(BASE, _nolog=1, _extra='-DVH_ALLOC_HOOK', _flavours=['gcc', 'clang'], pendq=0, wSaveLoad=10, wPlanEdit=3, wExtStatus=1, pSucceed=100, pFail=20, pPlanInCb=100, wReset=1, wExitEnter=1, maxBatch=10, pIssue=100, pGuardIssue=200),
-    'ordinary':  dict(BASE, wSaveLoad=8, wPlanEdit=2, wExtStatus=1, pSucceed=80, pFail=20, pPlanInCb=40, wReset=1, wExitEnter=1, wRecreate=5, replica=0),
+    'ordinary':  dict(BASE, wOverlong=10, wSaveLoad=8, wPlanEdit=2, wExtStatus=1, pSucceed=80, pFail=20, pPlanInCb=40, wReset=1, wExitEnter=1, wRecreate=5, replica=0),
     'copies':    dict(BASE, copies=40, pIssue=0, pGuardCancel=0, pGuardIssue=0, maxBatch=3, wReset=1, wExitEnter=1, wImmediate=3),
     'c15-core':  dict(BASE, kinds=0x4f, pGuardIssue=0, pGuardCancel=80, pIssue=40, maxBatch=3, pendq=0, wReset=1, wExitEnter=1, wQuery=1, pConsume=40, wfEvery=0),
     'c15-utility': dict(BASE, kinds=0x7f, pGuardIssue=0, pGuardCancel=80, pIssue=40, maxBatch=3, pendq=0, wReset=1, wExitEnter=1, wQuery=1, pConsume=40, wfEvery=0),
